@@ -24,6 +24,12 @@ const PLACEMENTS = {
   plus_both: P(['x = ', 0, ' + a + ', 1, ';'], [{}, {}]),
   plus_literals_only: P(['x = ', 0, ' + ', 1, ';'], [{}, {}]),
   plus_assign: P(['x += ', 0, ';']),
+  method_two_args: P(['x = a.concat(', 0, ', ', 1, ');'], [{}, {}]),
+  literal_receiver_and_arg: P(['x = ', 0, '.concat(a, ', 1, ');'], [{}, {}]),
+  plus_two_literals_then_ident: P(['x = ', 0, ' + ', 1, ' + a;'], [{}, {}]),
+  obj_two_props: P(['x = { k6: ', 0, ', k7: ', 1, ' };'], [{ ident: 'k6' }, { ident: 'k7' }]),
+  tpl_two_substitutions: P(['x = `${a}` + h(', 0, ', ', 1, ');'], [{}, {}]),
+  proto_call_two: P(['x = String.prototype.concat.call(a, ', 0, ', ', 1, ');'], [{}, {}]),
   tpl_neighbour: P(['x = `${a}` + ', 0, ';']),
   tpl_substitution: P(['x = `${', 0, '}${a}`;']),
   method_arg: P(['x = a.concat(', 0, ');']),
@@ -76,7 +82,7 @@ const TOP_PLACEMENTS = {
 }
 const LAYOUTS = ['same_line', 'own_line', 'after_bmp', 'crlf', 'tabs']
 
-function buildProgram (placeName, lenIdx, layout, multiplicity, modified) {
+function buildProgram (placeName, lenIdx, layout, multiplicity, modified, same) {
   const place = PLACEMENTS[placeName] || TOP_PLACEMENTS[placeName]
   const top = !!TOP_PLACEMENTS[placeName]
   const eol = layout === 'crlf' ? '\r\n' : '\n'
@@ -91,7 +97,8 @@ function buildProgram (placeName, lenIdx, layout, multiplicity, modified) {
     emit("'" + value + "'")
   }
   const [bytes, kind] = LENGTHS[lenIdx]
-  const values = place.slots.map((_, i) => mkValue(bytes, kind, 'v' + i + placeName + '_'))
+  // `same`: every slot of the placement holds the SAME value (two occurrences of one value in one operation)
+  const values = place.slots.map((_, i) => mkValue(bytes, kind, 'v' + (same ? 0 : i) + placeName + '_'))
   const emitPlacement = (vals) => { for (const part of place.parts) { if (typeof part === 'number') emitLit(vals[part], place.slots[part]); else emit(part) } }
   emit('// header ñ' + eol)
   if (top) { emitPlacement(values); emit(eol) }
@@ -123,10 +130,11 @@ async function build (tier) {
     { name: 'layout', symbols: LAYOUTS },
     { name: 'mult', symbols: ['once', 'twice'] },
     { name: 'modified', symbols: [true, false], free: true },
-    { name: 'literals', symbols: ['omitted', true, false] }
+    { name: 'literals', symbols: ['omitted', true, false] },
+    { name: 'same', symbols: [false, true], free: true }
   ]
   const r = enumerate(dims, { k: tier === 'thorough' ? 3 : 1 })
-  const leaves = r.leaves.map((l) => ({ key: [l.pick.place, l.pick.len, l.pick.layout, l.pick.mult, l.pick.modified, l.pick.literals].join('¦'), pick: l.pick }))
+  const leaves = r.leaves.filter((l) => !l.pick.same || (PLACEMENTS[l.pick.place] || TOP_PLACEMENTS[l.pick.place]).slots.length > 1).map((l) => ({ key: [l.pick.place, l.pick.len, l.pick.layout, l.pick.mult, l.pick.modified, l.pick.literals, l.pick.same].join('¦'), pick: l.pick }))
   return { leaves, stats: r.stats, bound: { deviations_k_over_layout_multiplicity_literalsOption: tier === 'thorough' ? 3 : 1, placements: Object.keys(PLACEMENTS).length + Object.keys(TOP_PLACEMENTS).length, lengths: lens.length }, alphabets: { placements: Object.keys(PLACEMENTS).concat(Object.keys(TOP_PLACEMENTS)), lengths: LENGTHS.map((x) => x.join(':')), layouts: LAYOUTS } }
 }
 
@@ -138,7 +146,7 @@ function cfgOf (pick, base) {
 
 function requests (leaf) {
   const p = leaf.pick
-  const prog = buildProgram(p.place, p.len, p.layout, p.mult, p.modified)
+  const prog = buildProgram(p.place, p.len, p.layout, p.mult, p.modified, p.same)
   return [
     { config: cfgOf(p, C.FULL), file: '/p/lit.js', code: prog.text },
     { config: cfgOf(p, C.NOTHING), file: '/p/lit.js', code: prog.text }
@@ -153,7 +161,7 @@ function reported (r) {
 
 async function check (leaf, resps) {
   const p = leaf.pick
-  const prog = buildProgram(p.place, p.len, p.layout, p.mult, p.modified)
+  const prog = buildProgram(p.place, p.len, p.layout, p.mult, p.modified, p.same)
   const res = { nontrivial: true, outcome: 'ok', violations: [], distinctKey: prog.text + '|' + p.literals }
   const v = (rule, sig, detail) => res.violations.push({ rule, sig, detail: detail + '\n  leaf: ' + leaf.key + '\n' + prog.text.slice(0, 500) })
   const [r, r0] = resps
